@@ -36,6 +36,7 @@ fn stable_image(s: &dyn Subject, key: &[u8], route: Route) -> Option<(Vec<Option
 /// Returns Ok(number of key-dependent positions) or Err(description).
 pub fn check_keys(s: &dyn Subject, route: Route, keys: &[Vec<u8>]) -> Result<Option<(usize, usize)>, (String, String)> {
     let dead = std::cell::Cell::new(0usize);
+    let live_pos: std::cell::RefCell<std::collections::HashMap<usize, bool>> = Default::default();
     let r = guarded(|| -> Result<Option<(usize, usize)>, (String, String)> {
         let mut images = Vec::new();
         for k in keys {
@@ -66,7 +67,10 @@ pub fn check_keys(s: &dyn Subject, route: Route, keys: &[Vec<u8>]) -> Result<Opt
                 let live: Vec<usize> = bad
                     .iter()
                     .copied()
-                    .filter(|&i| s.live_byte(&keys[ki], route, i).unwrap_or(true) || keys.iter().enumerate().any(|(kj, k2)| kj != ki && s.live_byte(k2, route, i).unwrap_or(true)))
+                    .filter(|&i| {
+                        // per position, memoised: the answer does not depend on the key under test
+                        *live_pos.borrow_mut().entry(i).or_insert_with(|| keys.iter().any(|k2| s.live_byte(k2, route, i).unwrap_or(true)))
+                    })
                     .collect();
                 if !live.is_empty() {
                     return Err((
